@@ -50,6 +50,44 @@ def r_unique_names(ck: Checker) -> None:
         ck.add(f"{name}: candidates have the requested arity", ar == {func.params()[-1]}, func, func.node, f"arity arguments {sorted(ar)}", "freshness is per (name, arity)")
 
 
+def r_domain_names(ck: Checker) -> None:
+    """DomainPredicates._predicate: every (name, arity) it hands out went through UniqueNames.new_predicate with that arity"""
+    func = ck.func("dependency:DomainPredicates._predicate")
+    p_name, p_ar = func.params()[1:3]
+    it = ck.interp(func)
+    want = f"self.unique_names.new_predicate({p_name}, {p_ar})"
+    n = 0
+    for ret in returns_of(func):
+        if ret.value is None or not it.reachable(ret):
+            continue
+        n += 1
+        txts = it.texts(ret, ret.value)
+        ok = txts == {want}
+        if not ok and all(re.fullmatch(r"[\w.]+\[.*\]", t) for t in txts):
+            # an explicit memo table: keyed by both parameters, filled with the checked name only
+            sub_ = ret.value if isinstance(ret.value, ast.Subscript) else None
+            if sub_ is not None:
+                key = unparse(sub_.slice)
+                stores = [a for a in find_nodes(func.node, lambda x: isinstance(x, ast.Assign)) if any(isinstance(t, ast.Subscript) and unparse(t.value) == unparse(sub_.value) for t in a.targets)]  # type: ignore[attr-defined]
+                ok = bool(stores) and re.search(rf"\b{p_name}\b", key) is not None and re.search(rf"\b{p_ar}\b", key) is not None and all(unparse(a.value) == want for a in stores)  # type: ignore[attr-defined]
+        ck.add("the handed out predicate is the one new_predicate checked for this name AND arity", ok, func, ret, f"returns {sorted(txts)}; expected `{want}`",
+               "freshness is per (name, arity): a name checked for arity 2 can be an input predicate at arity 3 (`__dom_cost/3` declared as input gets a defining rule)")
+    ck.need(n >= 1, "_predicate returns a predicate")
+    decos = [unparse(d) for d in func.node.decorator_list]  # type: ignore[attr-defined]
+    ck.add("memoised per (self, name, arity) or not at all", all(d in ("cache", "functools.cache", "lru_cache(maxsize=None)", "functools.lru_cache(maxsize=None)") for d in decos), func, func.node, f"decorators {decos}",
+           "one request must not yield two different invented names for the same purpose", nontrivial=False)
+    users = 0
+    for other in ck.prg.funcs.values():
+        if not other.qualname.startswith("ngo.dependency:DomainPredicates."):
+            continue
+        for call in resolved_calls(ck.prg, other, "ngo.utils.ast:Predicate"):
+            name = call.args[0] if call.args else None
+            if isinstance(name, ast.JoinedStr) or (isinstance(name, ast.Constant) and isinstance(name.value, str) and name.value.startswith("__")):
+                users += 1
+                ck.add(f"{other.name}: invented name goes through _predicate", False, other, call, f"`{short(unparse(call), 80)}` builds an invented name directly", "no freshness check at all")
+    ck.notes["C07.domain-names.direct"] = users
+
+
 def _head_name_sources(ck: Checker, func: Func, rule_call: ast.Call) -> set[str]:
     """texts the head predicate NAME of a constructed rule derives from"""
     it = ck.interp(func)
@@ -157,6 +195,55 @@ def r_fresh_variables(ck: Checker) -> None:
         ck.add(f"module variable {cname} is only used through make_unique", ok, "utils.globals:<module>", val, f"`{cname} = {unparse(val)}` used raw in {sorted(set(users))}",  # type: ignore[arg-type]
                "source programs may use __NEXT/__PREV/AUX themselves (the property explicitly includes such names)", rule="C07.FRESH.variable")
     ck.need(n >= 25, f"Variable(...) constructor calls found ({n})")
+
+
+SUBPART = re.compile(r"\.(body|elements|condition|atom|head|terms|literal|left|right|guards|arguments|symbol)\b")
+
+
+def r_unique_variables(ck: Checker) -> None:
+    """UniqueVariables: knows every variable of the WHOLE target statement; a returned variable is new and becomes known"""
+    init = ck.func("utils.globals:UniqueVariables.__init__")
+    p = init.params()[1]
+    d = [n for n in find_nodes(init.node, lambda n: isinstance(n, (ast.Assign, ast.AnnAssign))) if unparse(getattr(n, "target", None) or n.targets[0]) == "self._allvars"]  # type: ignore[attr-defined]
+    ck.need(len(d) == 1, "self._allvars initialised once")
+    val = unparse(d[0].value).replace('"', "'")  # type: ignore[attr-defined]
+    ck.add("known variables = all variables of the given statement", val in (f"collect_ast({p}, 'Variable')", f"list(collect_ast({p}, 'Variable'))"), init, d[0], f"`{fmt(d[0])}`", "a variable that is not collected can be handed out again: capture")
+    mu = ck.func("utils.globals:UniqueVariables.make_unique")
+    it = ck.interp(mu)
+    v = mu.params()[1]
+    n = 0
+    for ret in returns_of(mu):
+        if ret.value is None or not it.reachable(ret):
+            continue
+        n += 1
+        txt = unparse(ret.value)
+        anon = it.holds(ret, f"{v}.name == '_'")
+        if anon:
+            ck.add("make_unique: the anonymous variable is returned as is", txt == v, mu, ret, f"returns `{txt}`", "", nontrivial=False)
+            continue
+        apps = [c for c in attr_calls(mu, "append") if unparse(c.func.value) == "self._allvars" and unparse(c.args[0]) == txt]  # type: ignore[attr-defined]
+        new = all(it.holds(a, f"{txt} not in self._allvars") for a in apps) if apps else it.holds(ret, f"{txt} not in self._allvars")
+        marked = ck.interp(mu, None, mark_stmts={id(enclosing_stmt(mu, a)): "known" for a in apps})
+        known = bool(apps) and all("known" in st.marks for st in marked.states(ret))
+        ck.add(f"make_unique: returned `{txt}` is not a variable of the statement", new, mu, ret, f"`{fmt(ret)}` dominated by `{txt} not in self._allvars`: {new}", "capture of a source variable")
+        ck.add(f"make_unique: returned `{txt}` becomes known", known, mu, ret, f"self._allvars.append({txt}) on every path to the return: {known}", "two invented variables of one statement would share a name")
+    ck.need(n >= 3, f"make_unique return sites ({n})")
+    sites = 0
+    for func in ck.prg.funcs.values():
+        for call in resolved_calls(ck.prg, func, "ngo.utils.globals:UniqueVariables"):
+            sites += 1
+            itf = ck.interp(func)
+            arg = call.args[0]
+            txts = set(itf.texts(call, arg))
+            for st in itf.states(call):
+                root = unparse(arg).split(".")[0].split("[")[0]
+                if root in st.origin:
+                    txts.add(st.origin[root])
+            part = sorted(t for t in txts if SUBPART.search(t))
+            ck.add(f"UniqueVariables({short(unparse(arg), 30)}) in {func.name}", not part, func, call, f"scope argument derives from {sorted(txts)}" + (f": {part} is a part of a statement" if part else " (a whole statement)"),
+                   "names made unique against a literal or an aggregate only can capture a variable the statement uses elsewhere (`total(W,T) :- worker(W), T = #sum{S,P : spent(P,S)}` with an inlined rule that has its own W)",
+                   rule="C07.FRESH.variable-scope")
+    ck.need(sites >= 6, f"UniqueVariables constructions found ({sites})")
 
 
 def r_passthrough(ck: Checker) -> None:
@@ -297,7 +384,9 @@ def r_binders(ck: Checker) -> None:
 RULES = [
     Rule("C07.unique-names", P7 + P4, r_unique_names),
     Rule("C07.FRESH.predicate", P7 + ("C12",), r_fresh_predicates),
+    Rule("C07.FRESH.domain-names", P7 + ("C12", "C13", "C20"), r_domain_names),
     Rule("C07.FRESH.variable", P7 + ("C12",), r_fresh_variables),
+    Rule("C07.unique-variables", P7 + P4 + ("C15",), r_unique_variables),
     Rule("C07.FLOW.passthrough", P7, r_passthrough),
     Rule("C04.lexical", P4, r_lexical),
     Rule("C04.TABLE.binders", P4 + ("C16", "C10"), r_binders),
